@@ -11,7 +11,7 @@ from harness import gqlworld as G
 from oracles import ref_exec as RX
 
 NT = len(G.TEMPLATES)
-VARSETS = (None, {"s": True, "i": True}, {"s": False, "i": False}, {"s": True, "i": False}, {"x": 0, "r": "ADMIN"}, {"x": None}, {"f": {"a": 1, "c": None}, "ids": None})
+VARSETS = (None, {"s": True, "i": True}, {"s": False, "i": False}, {"s": True, "i": False}, {"x": 0, "r": "ADMIN"}, {"x": None}, {"f": {"a": 1, "c": None}, "ids": None}, {"n": 3})
 
 
 def real_run(schema, text, variables, data, opname):
